@@ -1218,10 +1218,21 @@ protected:
       {
         std::string connValue = connectionIt->second;
         std::transform(connValue.begin(), connValue.end(), connValue.begin(), ::tolower);
-        if (connValue == "close")
+        // Connection is a comma-separated list of connection options (RFC 9110
+        // §7.6.1), e.g. "keep-alive, close" or "TE, close": look for the "close"
+        // option instead of comparing the whole field value.
+        std::istringstream connOptions(connValue);
+        std::string connOption;
+        while (std::getline(connOptions, connOption, ','))
         {
-          shouldCloseConnection = true;
-          connectionHeader = "close";
+          connOption.erase(0, connOption.find_first_not_of(" \t"));
+          connOption.erase(connOption.find_last_not_of(" \t") + 1);
+          if (connOption == "close")
+          {
+            shouldCloseConnection = true;
+            connectionHeader = "close";
+            break;
+          }
         }
       }
 
